@@ -240,27 +240,56 @@ Definition round (fx : bool) (w : world) (i j : N) (late : bool) : world :=
 (* A storage fault: the engine refuses to commit the transaction filterPersist opened for this batch
    (xkv.WithTx rolls it back). Only a transaction that wrote something can fail this way, i.e. one
    that accepted at least one operation. Nothing is stored, nothing reaches the splitter (no gossip
-   store entry, no observer is told); the rejected operations still go to the feedback sender. *)
-Definition ingest_at_fail (fx : bool) (w : world) (j sender : N) (ops : list op) : world :=
+   store entry, no observer is told); the rejected operations still go to the feedback sender.
+   A fault on one Set of the transaction (the value or the digest of key k — both are written only
+   for an accepted operation): filterPersist returns the error from inside the transaction, which
+   is rolled back as a whole at the first accepted operation on k; what was rejected before it
+   still gets feedback, what comes after it is not looked at. *)
+Inductive fault :=
+| FCommit (n : N)        (* node n: the commit of the ingress transaction fails *)
+| FSet (n k : N).        (* node n: the next write of key k (value or digest) inside it fails *)
+Definition f_node (f : fault) : N := match f with FCommit n | FSet n _ => n end.
+
+(* Some (rejected so far) if an operation on k gets accepted, i.e. the faulty Set is reached *)
+Fixpoint ingest_abort (k : N) (e : engine) (b : list op) : option (list op) :=
+  match b with
+  | [] => None
+  | o :: r =>
+      if supersedes (e !! o_key o) o
+      then if o_key o =? k then Some [] else ingest_abort k (<[o_key o := o]> e) r
+      else option_map (cons o) (ingest_abort k e r)
+  end.
+
+Definition fail_world (w : world) (j sender : N) (rej : list op) : world :=
+  World (w_nodes w) (w_msgs w)
+        (match rej, w_nodes w !! sender with
+         | _ :: _, Some _ => w_fbs w ++ [Fb sender j (map strip rej) false]
+         | _, _ => w_fbs w
+         end).
+
+Definition ingest_at_fail (fx : bool) (f : fault) (w : world) (j sender : N) (ops : list op) : world :=
   match ops, w_nodes w !! j with
   | _ :: _, Some nd =>
-      match ingest (n_eng nd) ops with
-      | (_, [], _) => ingest_at fx w j sender ops
-      | (_, _ :: _, rej) =>
-          World (w_nodes w) (w_msgs w)
-                (match rej, w_nodes w !! sender with
-                 | _ :: _, Some _ => w_fbs w ++ [Fb sender j (map strip rej) false]
-                 | _, _ => w_fbs w
-                 end)
+      match f with
+      | FCommit _ =>
+          match ingest (n_eng nd) ops with
+          | (_, [], _) => ingest_at fx w j sender ops
+          | (_, _ :: _, rej) => fail_world w j sender rej
+          end
+      | FSet _ k =>
+          match ingest_abort k (n_eng nd) ops with
+          | None => ingest_at fx w j sender ops
+          | Some rej => fail_world w j sender rej
+          end
       end
   | _, _ => w
   end.
 
 (* ingestion at node j while node [fn]'s next ingress commit is set to fail *)
-Definition ingest_at_f (fx : bool) (fn : N) (w : world) (j sender : N) (ops : list op) : world :=
-  if bool_decide (fn = j) then ingest_at_fail fx w j sender ops else ingest_at fx w j sender ops.
+Definition ingest_at_f (fx : bool) (fn : fault) (w : world) (j sender : N) (ops : list op) : world :=
+  if bool_decide (f_node fn = j) then ingest_at_fail fx fn w j sender ops else ingest_at fx w j sender ops.
 
-Definition round_f (fx : bool) (fn : N) (w : world) (i j : N) (late : bool) : world :=
+Definition round_f (fx : bool) (fn : fault) (w : world) (i j : N) (late : bool) : world :=
   match w_nodes w !! i, w_nodes w !! j with
   | Some _, Some _ =>
       if bool_decide (i = j) then w else
@@ -302,6 +331,26 @@ Definition stall (w : world) (n s : N) : world :=
   | None => w
   end.
 
+(* DB.Set / DB.Delete during which the leaseholder cannot flush its version counter (the engine
+   refuses the Set of the counter key): versionAssigner drops the request — no version is assigned,
+   nothing is written, the call is never acknowledged (return code 3 = "did not return"). The
+   in-memory counter is then ahead of the persisted one until the node's kv layer is reopened; this
+   step includes that reopening (kv.Open on the same engine) of the leaseholder, so the model needs
+   no separate in-memory counter. *)
+Definition write_cf (w : world) (n k lease : N) (del : bool) : world * N :=
+  match w_nodes w !! n with
+  | None => (w, 0)
+  | Some nd =>
+      match alloc nd n k lease del with
+      | inr e => (w, e)
+      | inl lh =>
+          match w_nodes w !! lh with
+          | None => (w, 2)
+          | Some _ => (restart w lh, 3)
+          end
+      end
+  end.
+
 (* the steps during which a gossip batch is ingested *)
 Inductive gstep :=
 | GInject (n sender : N) (b : list op)
@@ -322,7 +371,8 @@ Inductive step_t :=
 | SRecEnd (n p : N)                 (* runSingleNodeRecovery: stream + apply + commit *)
 | SRecover (n p : N)                (* both, back to back *)
 | SSub (n s : N) (filter : bool)    (* DB.OnChange / NewObservable(IgnoreHostLeaseholder).OnChange *)
-| SFaulty (n : N) (g : gstep)       (* step g, during which node n's ingress transaction fails to commit *)
+| SFaulty (f : fault) (g : gstep)   (* step g, during which a storage fault hits node (f_node f)'s ingress transaction *)
+| SWriteCF (n k lease : N) (del : bool)   (* Set/Delete whose version-counter flush fails, then reopen *)
 | SStall (n s : N).                 (* subscriber s stops keeping up (its handler blocks and its buffers overflow):
                                        from here on what it is handed is unspecified — the drop hypothesis *)
 
@@ -356,6 +406,7 @@ Definition step (fx : bool) (T : N) (w : world) (s : step_t) : world * N :=
       | None => (w, 0)
       end
   | SFaulty fn (GRound i j late) => (round_f fx fn w i j late, 0)
+  | SWriteCF n k lease del => write_cf w n k lease del
   | SStall n s => (stall w n s, 0)
   end.
 
